@@ -437,7 +437,8 @@ theorem C17_placeholder_at_path (env : Env) (p : List Str) (s : Schema) (cfg : V
 
 /-- **discard_overflow defaults to on.** `readConfig` gives every pool mapping that lacks the key the entry
 `discard_overflow: true` (and leaves a pool that has the key alone); the struct field with that key then decodes to
-`true`, whatever else the pool contains. -/
+`true`, whatever else the pool contains; the keys of the file are lower-cased first (viper), so `Pools:` /
+`Discard_Overflow:` in any letter case are these keys. -/
 theorem C17_discard_default (fl : Flags) (env : Env) (pk : List (Str × Val)) :
     ((∀ e ∈ pk, e.1 ≠ "discard_overflow".toList) →
       defaultDiscard (.map [("pools".toList, .list [.map pk])]) =
@@ -446,6 +447,10 @@ theorem C17_discard_default (fl : Flags) (env : Env) (pk : List (Str × Val)) :
         fieldResult fl env (pk ++ [("discard_overflow".toList, .bool true)]) f (.scalar .bool d) = { val := .bool true }) ∧
     ((∃ e ∈ pk, e.1 = "discard_overflow".toList) →
       defaultDiscard (.map [("pools".toList, .list [.map pk])]) = .map [("pools".toList, .list [.map pk])]) ∧
+    (∀ (K : Str), lower K = "pools".toList →
+      lowerKeys (.map [(K, .list [.map pk])]) = .map [("pools".toList, .list [.map (lowerKeysKVs pk)])] ∧
+      ((∀ e ∈ pk, lower e.1 ≠ "discard_overflow".toList) → ∀ e ∈ lowerKeysKVs pk, e.1 ≠ "discard_overflow".toList) ∧
+      ∀ s cfg, cliRead fl env s cfg = decodeAndValidate fl env s (defaultDiscard (lowerKeys cfg))) ∧
     (∀ (pools : List Val), defaultDiscard (.map [("pools".toList, .list pools)]) =
       .map [("pools".toList, .list (pools.map fun p =>
         match p with
@@ -453,7 +458,7 @@ theorem C17_discard_default (fl : Flags) (env : Env) (pk : List (Str × Val)) :
           if (pk.any fun e => e.1 == "discard_overflow".toList) then .map pk
           else .map (pk ++ [("discard_overflow".toList, .bool true)])
         | other => other))]) := by
-  refine ⟨?_, ?_, ?_⟩
+  refine ⟨?_, ?_, ?_, ?_⟩
   · intro habs
     have hany : (pk.any fun e => e.1 == "discard_overflow".toList) = false := by
       rw [List.any_eq_false]
@@ -473,6 +478,23 @@ theorem C17_discard_default (fl : Flags) (env : Env) (pk : List (Str × Val)) :
       exact ⟨e, he, by simp [hk]⟩
     simp only [defaultDiscard, defaultDiscardWith, discardDefault, List.map_cons, List.map_nil, beq_self_eq_true,
       if_true, hany]
+  · intro K hK
+    refine ⟨?_, ?_, fun _ _ => rfl⟩
+    · simp [lowerKeys, lowerKeysKVs, lowerKeysList, hK]
+    · intro h e he
+      have aux : ∀ (l : List (Str × Val)), (∀ e ∈ l, lower e.1 ≠ "discard_overflow".toList) →
+          ∀ e ∈ lowerKeysKVs l, e.1 ≠ "discard_overflow".toList := by
+        intro l
+        induction l with
+        | nil => intro _ e he; simp [lowerKeysKVs] at he
+        | cons x xs ih =>
+          intro hl e he
+          obtain ⟨k, v⟩ := x
+          simp only [lowerKeysKVs, List.mem_cons] at he
+          rcases he with rfl | he
+          · exact hl (k, v) (by simp)
+          · exact ih (fun e he => hl e (by simp [he])) e he
+      exact aux pk h e he
   · intro pools
     simp only [defaultDiscard, defaultDiscardWith, discardDefault, List.map_cons, List.map_nil, beq_self_eq_true, if_true]
     rfl
@@ -541,6 +563,32 @@ example : ∃ cfg', Inserted "tagret".toList (.int 1) [.key "pools".toList, .idx
               "grpc".toList true gunCfg _ rfl rfl (by decide) rfl
               (.here gunFields [("target".toList, .str "127.0.0.1:80".toList)] [("workers".toList, .int 2)] (by decide))))),
     by decide, by decide, by decide⟩
+
+/-- C17_unknown_key through the list shortcut of a schedule: `rps: [{type: once, tiems: 2, times: 1}]` is the composite
+schedule of that list; the misspelled key sits in the `once` block of its first element -/
+private def onceFields : Fields := .cons (fld "Times" "times" [.min 1]) (.scalar (.int 64) (.int 0)) .nil
+private def schedNames : List Str := ["once".toList, "composite".toList]
+private def oncePos : Schema := .plugin ⟨false, .sched, false, schedNames⟩ (.cons "once".toList false (.struct onceFields) .nil)
+private def compFields : Fields := .cons (fld "Nested" "nested") (.slice oncePos .nil) .nil
+private def schedPos : Schema := .plugin ⟨false, .sched, false, schedNames⟩ (.cons "composite".toList false (.struct compFields) .nil)
+private def onceBlock : List (Str × Val) := [("type".toList, .str "once".toList), ("times".toList, .int 1)]
+private def onceBlock' : List (Str × Val) := [("type".toList, .str "once".toList), ("tiems".toList, .int 2), ("times".toList, .int 1)]
+
+example : Inserted "tiems".toList (.int 2) [.shortcut, .plugin, .key "nested".toList, .idx 0, .plugin] schedPos
+      (.list [.map onceBlock]) (.list [.map onceBlock']) ∧
+    (decodeAndValidate repoFlags env0 schedPos (.list [.map onceBlock'])).rejected = true ∧
+    (decodeAndValidate repoFlags env0 schedPos (.list [.map onceBlock])).rejected = false := by
+  refine ⟨?_, by decide, by decide⟩
+  refine .schedList _ _ [.map onceBlock] [.map onceBlock'] _ rfl ?_
+  refine .plugin _ _ (schedMap [.map onceBlock]) (schedMap [.map onceBlock']) "composite".toList false (.struct compFields) _
+    rfl rfl (by decide) rfl ?_
+  have h := Inserted.field (k := "tiems".toList) (v := .int 2) compFields [("nested".toList, .list [.map onceBlock])]
+    (fld "Nested" "nested") (.slice oncePos .nil) "nested".toList (.list [.map onceBlock]) (.list [.map onceBlock'])
+    [.idx 0, .plugin] (.head _ _ _) rfl rfl
+    (.elem oncePos .nil [.map onceBlock] 0 (.map onceBlock) (.map onceBlock') [.plugin] rfl
+      (.plugin _ _ onceBlock onceBlock' "once".toList false (.struct onceFields) [] rfl rfl (by decide) rfl
+        (.here onceFields [] [("times".toList, .int 1)] (by decide))))
+  exact h
 
 /-- C17_nested_error / C17_nested_constraint / C17_plugin_type_key: a wrongly typed value, a bad placeholder, a
 violated constraint and a second `type` key inside the gun block of a pool are errors of the root configuration -/
@@ -676,6 +724,18 @@ example :
         (.field _ [("port".toList, .str "${env:N}".toList)] (fld "Port" "port" [.required]) _ "port".toList _ _ _ _
           (.tail _ _ _ _ _ (by decide) (.head _ _ _)) rfl rfl
           (.here _ _))))
+
+/-- C17_discard_default, keys in other letter cases (`POOLS:`, `Discard_Overflow: false`): folded by `cliRead` -/
+example :
+    let cfg : Val := .map [("POOLS".toList, .list [.map (("Discard_Overflow".toList, .bool false) :: poolMap), .map poolMap])]
+    let r := decode repoFlags env0 rootCfg (defaultDiscard (lowerKeys cfg))
+    r.errs = [] ∧
+    ((lookup ["Pools".toList] r.val).map fun v =>
+      match v with
+      | .slice [p, q] =>
+        ((lookup ["DiscardOverflow".toList] p).map fun b => scalarEq b (.bool false),
+         (lookup ["DiscardOverflow".toList] q).map fun b => scalarEq b (.bool true))
+      | _ => (none, none)) = some (some true, some true) := by decide
 
 end Examples
 
